@@ -126,6 +126,42 @@ def run(repo, run, tier):
     run.check(R1, "ast.EnumNode.__init__:int-literal", len(ints) == 1 and "print_node(member.value)" in am.seg(ints[0]),
               "integer literals must be taken from the parsed value expression", am.loc(value_loop))
 
+    # ---- R2 (mode flag): the variable that selects integer / symbolic successor computation is loop-carried;
+    # each way of evaluating an explicit value must (re-)establish it, otherwise the mode of an earlier
+    # member leaks into the members after a later explicit value
+    sel = [n for n in ast.walk(value_loop) if isinstance(n, ast.If) and isinstance(n.test, ast.Name)
+           and any(isinstance(x, ast.Assign) and pyflow.is_name(x.targets[0], "cvalue") for x in ast.walk(n))]
+    if len(sel) != 1:
+        raise AnalysisError("C11.R2: successor selection `if <flag>:` not found")
+    flag = sel[0].test.id
+    tries = [n for n in ast.walk(value_loop) if isinstance(n, ast.Try)]
+    if len(tries) != 1:
+        raise AnalysisError("C11.R2: expected one try/except evaluating the explicit value")
+    tr = tries[0]
+
+    def flag_consts(stmts):
+        return [x.value.value for st in stmts for x in ast.walk(st) if isinstance(x, ast.Assign)
+                and pyflow.is_name(x.targets[0], flag) and isinstance(x.value, ast.Constant)]
+    in_try = flag_consts(tr.body + tr.orelse)
+    in_exc = [flag_consts(h.body) for h in tr.handlers]
+    run.check(R2, "ast.EnumNode.__init__:%s@literal" % flag, in_try == [True],
+              "an integer-literal value must switch the successor rule to integer mode (`%s = True`); found %s: "
+              "members after `X = <expr>, Y = 100, Z` continue the old symbolic base" % (flag, in_try), am.loc(tr),
+              sample=dict(flag=flag, literal_arm=in_try, symbolic_arm=in_exc))
+    run.check(R2, "ast.EnumNode.__init__:%s@symbolic" % flag, all(x == [False] for x in in_exc) and bool(in_exc),
+              "a symbolic value must switch the successor rule to symbolic mode (`%s = False`); found %s" % (flag, in_exc),
+              am.loc(tr))
+    init = [n for n in f.body if isinstance(n, ast.Assign) and pyflow.is_name(n.targets[0], flag)]
+    run.check(R2, "ast.EnumNode.__init__:%s@start" % flag, len(init) == 1 and isinstance(init[0].value, ast.Constant)
+              and init[0].value.value is True and init[0].lineno < value_loop.lineno,
+              "enumerations start in integer mode (first implicit value 0)", am.loc(f))
+    # the symbolic arm restarts its increment and captures the bases
+    for h in tr.handlers:
+        z = [x for st in h.body for x in ast.walk(st) if isinstance(x, ast.Assign) and pyflow.is_name(x.targets[0], "incr")
+             and isinstance(x.value, ast.Constant) and x.value.value == 0]
+        run.check(R2, "ast.EnumNode.__init__:incr-restart", len(z) == 1,
+                  "the increment must restart at 0 for every symbolic explicit value", am.loc(h))
+
     # ---- R2 successor rule
     incs = []
     for n in ast.walk(value_loop):
